@@ -64,6 +64,8 @@ type vAbRun struct {
 	stops     []int
 	equalized bool
 	buildErr  error
+	backlog   func() int // entries waiting in the reader's buffer (flow control)
+	stopDelay time.Duration
 }
 
 type vAbProducer struct {
@@ -133,6 +135,7 @@ func (p *vAbProducer) start() error {
 }
 
 func (p *vAbProducer) stop() error {
+	time.Sleep(p.run.stopDelay) // a device that takes a while to close
 	p.run.mu.Lock()
 	p.run.stops[p.id]++
 	p.run.mu.Unlock()
@@ -158,6 +161,7 @@ func (p *vAbProducer) samplePackets(d time.Duration) ([]*packets.Packet, error) 
 
 func (p *vAbProducer) ReadAllPackets() ([]*packets.Packet, error) {
 	run := p.run
+	vFlowWait(run.backlog)
 	run.mu.Lock()
 	defer run.mu.Unlock()
 	t := run.calls[p.id]
@@ -480,6 +484,7 @@ func vRunAbacoOnce(c *vCase, s *vAbScript, rep int) {
 	for gi := range run.nextIdx {
 		run.nextIdx[gi] = s.nSample
 	}
+	run.backlog = func() int { return len(as.buffersChan) }
 	as.producers = nil
 	for p := 0; p < s.nprod; p++ {
 		as.producers = append(as.producers, &vAbProducer{run: run, id: p})
